@@ -100,6 +100,7 @@ type Exec struct {
 	regexMemo map[string]*rxProg
 	curPos    token.Pos
 	watchPublish map[string]bool
+	watchLock    map[*Object]*lockWatch // lock-discipline watch: object -> its guarding mutex
 	tm        *threadMode
 	bmcThreads []bmcThread
 	sess      *Session
@@ -164,6 +165,7 @@ func (ex *Exec) resetPath(prefix []int) {
 	ex.curFrame = nil
 	ex.bmcThreads = nil
 	ex.watchPublish = map[string]bool{}
+	ex.watchLock = map[*Object]*lockWatch{}
 }
 
 // RunPath executes the harness function along the given decision prefix.
@@ -924,6 +926,9 @@ func (ex *Exec) load(p *Pointer) Value {
 	if ex.inThread() && ex.isSharedObj(p.Obj) {
 		return ex.tmLoad(p, *cur, ex.curPos)
 	}
+	if w, ok := ex.watchLock[p.Obj]; ok {
+		ex.checkDiscipline(w, p, false)
+	}
 	return copyValue(*cur)
 }
 
@@ -931,6 +936,9 @@ func (ex *Exec) store(p *Pointer, v Value) {
 	cur, symEl, parent := ex.navigate(p)
 	if p.Obj.Frozen {
 		ex.noteFrozenWrite(p)
+	}
+	if w, ok := ex.watchLock[p.Obj]; ok {
+		ex.checkDiscipline(w, p, true)
 	}
 	if len(ex.watchPublish) > 0 {
 		if ex.watchPublish[fmt.Sprintf("%d%s", p.Obj.ID, pathKey(p.Path))] {
@@ -2061,4 +2069,35 @@ func (ex *Exec) copyOp(dst *SliceV, src Value) Value {
 		}
 	}
 	return ex.i64(int64(n))
+}
+
+// ---------- lock-discipline watch (sequential harnesses) ----------
+
+type lockWatch struct {
+	mutex  *Pointer
+	exempt map[int]bool // field indexes that are immutable after construction / not guarded
+	name   string
+}
+
+// checkDiscipline: an access to a watched object's field must happen while the object's mutex is
+// held (write mode for stores, any mode for loads).
+func (ex *Exec) checkDiscipline(w *lockWatch, p *Pointer, write bool) {
+	if len(p.Path) == 0 || w.exempt[p.Path[0].Idx] {
+		return
+	}
+	st := ex.lockState(w.mutex)
+	ok := st["w"] > 0 || (!write && st["r"] > 0)
+	if !ok {
+		kind := "read"
+		if write {
+			kind = "write"
+		}
+		ex.res.Events = append(ex.res.Events, fmt.Sprintf("unlocked %s of %s field %d%s", kind, w.name, p.Path[0].Idx, ex.where()))
+		n, _ := ex.ghost["unlockedAccesses"].(*Term)
+		c := int64(0)
+		if n != nil {
+			c = n.SInt()
+		}
+		ex.ghost["unlockedAccesses"] = ex.i64(c + 1)
+	}
 }
